@@ -25,8 +25,13 @@ var migrations = [dbVersion]MigrationStep{
 		it := txn.NewIterator(badger.DefaultIteratorOptions)
 		defer it.Close()
 		for it.Seek(prefix); it.ValidForPrefix(prefix); it.Next() {
-			key := it.Item().Key()
-			txn.Delete(key)
+			// The transaction keeps the key until commit while the iterator
+			// reuses the item's buffer for a key further ahead (of the next
+			// tables, too): delete a copy.
+			key := it.Item().KeyCopy(nil)
+			if err := txn.Delete(key); err != nil {
+				return err
+			}
 		}
 
 		return setVersion(txn, 2)
